@@ -175,20 +175,51 @@ def run(ctx):
     ctx.check(not ({"trigger", "dm_decorators", "handle_dispatch", "active_expr", "time_active"} & names), "R07.5", "eval.py::EvalFunc.call", "direct calls never consult guards",
               msg="EvalFunc.call refers to trigger/guard state: direct calls of a function must not be gated", key="call is guard free", node=call, rel="eval.py")
 
-    ctx.rule("R07.6", "@state_active is evaluated on the triggering event's values (new_vars incl. .old), in both subsystems", floor=3)
-    f = program.func("decorators/state.py::StateActiveDecorator.handle_dispatch")
-    txt = norm(f)
-    ctx.check("data.trigger_context.get('new_vars', {})" in txt and "State.notify_var_get(self.var_names, new_vars)" in txt and "self.check_expression_vars(active_vars)" in txt, "R07.6",
-              "decorators/state.py::StateActiveDecorator.handle_dispatch", "new: evaluated on trigger_context['new_vars']", msg="StateActiveDecorator.handle_dispatch no longer evaluates on the event's new_vars",
-              key="new state_active inputs", node=f, rel="decorators/state.py")
+    ctx.rule("R07.6", "@state_active is evaluated on the triggering event's values (new_vars incl. .old), in both subsystems", floor=7)
+    hd_uid = "decorators/state.py::StateActiveDecorator.handle_dispatch"
+    f = program.func(hd_uid)
+    for has_vars in (True, False):
+        nv = DictV([(Const("d.e"), Const("new")), (Const("d.e.old"), Const("old"))])
+        seen = {"varget": [], "expr": []}
+
+        def varget(i, n, a, k, c, o, seen=seen):
+            seen["varget"].append(tuple(a))
+            return [(c, DictV([(Const("$from"), a[1] if len(a) > 1 else NONE)]))]
+
+        def expr(i, n, a, k, c, o, seen=seen):
+            seen["expr"].append(tuple(a))
+            return [(c, Const(True))]
+
+        pol = FlowPolicy(program, may_raise_all=False, cancel=False, summaries={"State.notify_var_get": varget, "self.check_expression_vars": expr})
+        heap = {"data.trigger_context": DictV([(Const("new_vars"), nv)] if has_vars else []), "self.var_names": ListV((Const("d.e"),), "set")}
+        run_flow(program, hd_uid, pol, args={"self": ObjV("self", "StateActiveDecorator"), "data": ObjV("data", "DispatchData")}, heap=heap)
+        want_vars = nv if has_vars else DictV([])
+        ok = len(seen["varget"]) == 1 and len(seen["varget"][0]) > 1 and seen["varget"][0][1] == want_vars and len(seen["expr"]) == 1 \
+            and isinstance(seen["expr"][0][0], DictV) and seen["expr"][0][0].get(Const("$from")) == want_vars
+        ctx.check(ok, "R07.6", hd_uid, f"new: evaluated on the dispatch's new_vars ({'state occurrence' if has_vars else 'other source'})",
+                  msg=f"StateActiveDecorator.handle_dispatch collects values from {[repr(v[1]) if len(v) > 1 else None for v in seen['varget']]} and evaluates on {[repr(e[0]) for e in seen['expr']]}; "
+                  f"the occurrence carries {want_vars!r}", key=f"new state_active inputs {has_vars}", node=f, rel="decorators/state.py")
     st = program.cls("decorators/state.py::StateTriggerDecorator")
     disp = [n for n in ast.walk(st) if isinstance(n, ast.Call) and call_name(n) == "DispatchData"]
     ok = bool(disp) and all(any(k.arg == "trigger_context" and isinstance(k.value, ast.Dict) and any(isinstance(x, ast.Constant) and x.value == "new_vars" for x in k.value.keys)
                                  for k in d.keywords) for d in disp)
     ctx.check(ok, "R07.6", "decorators/state.py::StateTriggerDecorator", "state trigger dispatches carry the event's new_vars", msg="a state trigger dispatch no longer passes trigger_context={'new_vars': ...}",
               key="dispatch carries new_vars", node=st, rel="decorators/state.py")
-    ctx.check("active_vars = State.notify_var_get(self.state_active_ident, new_vars)" in norm(tw) and "self.active_expr.eval(active_vars)" in norm(tw), "R07.6", "trigger.py::TrigInfo.trigger_watch",
-              "legacy: evaluated on the notification's new_vars", msg="legacy trigger_watch no longer evaluates @state_active on the notification's new_vars", key="legacy state_active inputs", node=tw, rel="trigger.py")
+    from ..legacy import KINDS, WATCH, watch_occurrence
+    for kind in KINDS:
+        recs, occ, occ_vars = watch_occurrence(program, kind, filter_value=None if kind == "time" else True, active_value=True)
+        bad = None if recs else "no exit"
+        for r in recs:
+            vg = [v[1] for v in r["var_get"] if len(v) > 1]
+            ai = [a[0] for a in r["active_inputs"] if a]
+            if vg != [occ_vars]:
+                bad = f"the values for @state_active are collected from {vg!r}; the occurrence carries {occ_vars!r} (new value and .old)"
+            elif len(ai) != 1 or not isinstance(ai[0], DictV) or ai[0].get(Const("$from")) != occ_vars:
+                bad = f"@state_active is evaluated on {ai!r} instead of the values collected for this occurrence"
+            elif len(r["runs"]) != 1:
+                bad = f"{len(r['runs'])} run(s) for an occurrence the guard accepts"
+        ctx.check(bad is None, "R07.6", WATCH, f"legacy {kind} occurrence: @state_active evaluated on the occurrence's values",
+                  msg=f"legacy trigger_watch, {kind} occurrence: {bad}", key=f"legacy state_active inputs {kind}", node=program.func(WATCH), rel="trigger.py")
     ctx.rule("R07.9", "legacy loop: an occurrence taken from the queue is judged by @time_active at a clock reading made after it arrived (time triggers: at their own instant)", floor=2)
     legacy_now_freshness(ctx, program, "R07.9")
 
